@@ -347,7 +347,7 @@ def _phiM(zm, mo_len):
         phi_m : ndarray of shape (n_obs,)
             Values of phi_m in (Kormann and Meixner, 2001).
     """
-    phi_m = np.zeros_like(zm)
+    phi_m = np.zeros_like(zm, dtype=float)
     sflag = mo_len < 0
     phi_m[sflag] = (1 - 16 * zm[sflag] / mo_len[sflag]) ** (-0.25)
     sflag = mo_len >= 0
@@ -372,7 +372,7 @@ def _phiC(zm, mo_len):
         phi_c : ndarray of shape (n_obs,)
             Values of phi_c in (Kormann and Meixner, 2001).
     """
-    phi_c = np.zeros_like(zm)
+    phi_c = np.zeros_like(zm, dtype=float)
     sflag = mo_len < 0
     phi_c[sflag] = (1 - 16 * zm[sflag] / mo_len[sflag]) ** (-0.5)
     sflag = mo_len >= 0
@@ -397,7 +397,7 @@ def _psiM(zm, mo_len):
         psi_m : ndarray of shape (n_obs,)
             Values of psi_m in (Kormann and Meixner, 2001).
     """
-    psi_m = np.zeros_like(zm)
+    psi_m = np.zeros_like(zm, dtype=float)
     sflag = mo_len < 0
     inv_phi_m = (1 - 16 * zm[sflag] / mo_len[sflag]) ** (0.25)
     psi_m[sflag] = (
@@ -464,7 +464,7 @@ def _nParam(zm, mo_len):
     """
     # Estimate m using the analytical approach in (Kormann and Meixner, 2001),
     # following the Eq. (36).
-    n = np.zeros_like(zm)
+    n = np.zeros_like(zm, dtype=float)
     sflag = mo_len < 0
     n[sflag] = (1 - 24 * zm[sflag] / mo_len[sflag]) / (
         1 - 16 * zm[sflag] / mo_len[sflag]
